@@ -90,7 +90,8 @@ impl GenCfg {
     }
 }
 
-#[derive(Clone, Debug, Default)]
+#[derive(Clone, Debug, Default, serde::Serialize, serde::Deserialize)]
+#[serde(default)]
 pub struct Features {
     pub calls: usize,
     pub pars: usize,
